@@ -2304,6 +2304,76 @@ func statusScenario(t *testing.T, o *c01Out, rnd *rand.Rand, mode string, mutate
 			}
 		}
 	}
+	if mode == "" {
+		// NETWORK revocation × credentialStatus: a did:nuts credential is revoked by a revocation published on the network whatever
+		// credentialStatus it carries — none, an entry of an unknown type, a StatusList2021 entry whose list cannot be fetched (soft
+		// fail), a StatusList2021 entry whose bit is clear.  Verified before (valid) and after the revocation was registered.
+		var keepEntry any
+		for _, c := range list {
+			if strings.HasPrefix(c.text, "{") && !c.revoke && keepEntry == nil {
+				var m map[string]any
+				_ = json.Unmarshal([]byte(c.text), &m)
+				if _, many := m["credentialStatus"].([]any); !many {
+					keepEntry = m["credentialStatus"]
+				}
+			}
+		}
+		unknown := map[string]any{"id": "https://example.com/status/7", "type": "SomeOtherStatus2030"}
+		unfetchable := map[string]any{"id": "https://unreachable.example.com/statuslist/1#3", "type": "StatusList2021Entry", "statusPurpose": "revocation",
+			"statusListIndex": "3", "statusListCredential": "https://unreachable.example.com/statuslist/1"}
+		type nr struct{ label, id, text string }
+		var nrs []nr
+		for i, v := range []struct {
+			tag    string
+			status any
+		}{{"absent", nil}, {"unknown-type", unknown}, {"unfetchable-list", unfetchable}, {"bit-clear", keepEntry}, {"unknown+unfetchable", []any{unknown, unfetchable}}} {
+			for _, f := range []string{vc.JSONLDCredentialProofFormat, vc.JWTCredentialProofFormat} {
+				id := ssi.MustParseURI(didI + "#0000000" + strconv.Itoa(i) + "-0000-4000-8000-00000000000" + map[string]string{vc.JSONLDCredentialProofFormat: "1", vc.JWTCredentialProofFormat: "2"}[f])
+				un := vc.VerifiableCredential{Context: []ssi.URI{u(ctxVC), u("https://w3id.org/vc/status-list/2021/v1")}, ID: &id, Type: []ssi.URI{u("VerifiableCredential")},
+					Issuer: u(didI), IssuanceDate: time.Unix(issuedAt, 0).UTC(), CredentialSubject: []any{map[string]any{"id": didH}}}
+				if v.status != nil {
+					if l, ok := v.status.([]any); ok {
+						un.CredentialStatus = l
+					} else {
+						un.CredentialStatus = []any{v.status}
+					}
+				}
+				n.w.asOf = issuedAt * 1000
+				var text string
+				if f == vc.JWTCredentialProofFormat {
+					c, err := vc.CreateJWTVerifiableCredential(n.w.ctx, un, func(ctx context.Context, claims map[string]interface{}, headers map[string]interface{}) (string, error) {
+						return n.w.ks.SignJWT(ctx, claims, headers, didI+"#k1")
+					})
+					if err != nil {
+						t.Fatal(err)
+					}
+					text = c.Raw()
+				} else {
+					b, _ := json.Marshal(un)
+					var m map[string]any
+					_ = json.Unmarshal(b, &m)
+					signed, err := proof.NewLDProof(proof.ProofOptions{Created: un.IssuanceDate}).Sign(n.w.ctx, m, signature.JSONWebSignature2020{ContextLoader: n.w.loader, Signer: n.w.ks}, didI+"#k1")
+					if err != nil {
+						t.Fatal(err)
+					}
+					text = mustJSON(signed)
+				}
+				nrs = append(nrs, nr{"netrev[" + v.tag + "]:" + f, id.String(), text})
+			}
+		}
+		n.w.asOf = time.Now().UnixMilli()
+		for _, x := range nrs {
+			n.run(o, c01Call{kind: "vc", text: x.text, at: &okAt, allowUntrusted: false, checkSig: true, label: x.label, base: x.label})
+		}
+		for _, x := range nrs {
+			n.revoke(o, x.id)
+		}
+		n.w.asOf = time.Now().UnixMilli()
+		for _, x := range nrs {
+			n.run(o, c01Call{kind: "vc", text: x.text, at: &okAt, allowUntrusted: false, checkSig: true, label: x.label + "@network-revoked", base: x.label, mut: "revoked"})
+			n.run(o, c01Call{kind: "vc", text: x.text, at: &okAt, allowUntrusted: true, checkSig: false, label: x.label + "@network-revoked-nosig", base: x.label, mut: "revoked"})
+		}
+	}
 	if mode == "revoke-late" {
 		// download 1 happened above (nothing revoked yet, everything reported valid).  Now the issuer revokes, the stored copy
 		// ages past the 15 minutes, a check refreshes it (download 2) — and EVERY check from then on reports revoked:
